@@ -257,6 +257,14 @@ impl<'a> Read for SimStream<'a> {
                 return Err(io::Error::new(hard_kind(self.spec.hard_error_kind), "sim: injected hard read error"));
             }
         }
+        if let Some(o) = self.spec.hard_error_offset {
+            if self.pos as u64 >= o && !buf.is_empty() {
+                self.stats.hard_errors += 1;
+                self.hard_error_returned = true;
+                self.log(0, buf.len(), -2);
+                return Err(io::Error::new(hard_kind(self.spec.hard_error_kind), "sim: injected hard read error at offset"));
+            }
+        }
         if self.spec.eintr_calls.contains(&idx) {
             self.stats.eintr += 1;
             self.interrupted_returned = true;
@@ -284,7 +292,14 @@ impl<'a> Read for SimStream<'a> {
             return Ok(0);
         }
         self.consecutive_eof = 0;
-        let max = buf.len().min(left);
+        let mut max = buf.len().min(left);
+        if let Some(o) = self.spec.hard_error_offset {
+            // deliver up to the fault position, never across it
+            let room = (o as usize).saturating_sub(self.pos);
+            if room > 0 {
+                max = max.min(room);
+            }
+        }
         let n = match self.spec.mode {
             Frag::Whole => max,
             Frag::One => 1,
@@ -318,6 +333,7 @@ impl<'a> Read for SimStream<'a> {
                 n.max(1)
             }
         };
+        let n = n.min(max).max(1);
         buf[..n].copy_from_slice(&self.data[self.pos..self.pos + n]);
         self.pos += n;
         if self.pos > self.high_water {
